@@ -279,6 +279,37 @@ func ScenarioPartnerRewards() Script {
 	)
 }
 
+// ScenarioCdpFeesAccrued: CDPs of several collateral types stay open over hours and days while stability fees
+// accrue (some are touched again so that accumulated fees are written to the record, others are only
+// synchronised by the export itself). Used by C14: the export then carries CDPs with AccumulatedFees > 0.
+func ScenarioCdpFeesAccrued() Script {
+	open := func(g *Gen, k int, denom, ctype string, coll, prin int64) genFn {
+		u := g.P.Users[k]
+		m := cdptypes.NewMsgCreateCDP(u.Addr, c(denom, coll), c("usdx", prin), ctype)
+		return fixed(one("cdp.create", u, &m, ctype))
+	}
+	return script(
+		blk(sixS, func(g *Gen) []genFn {
+			return []genFn{
+				open(g, 0, "bnb", "bnb-a", 10_00000000, 1000_000000), open(g, 1, "bnb", "bnb-a", 5_00000000, 400_000000),
+				open(g, 2, "xrp", "xrp-a", 10000_000000, 1000_000000), open(g, 3, "btc", "btc-a", 1_0000000, 1500_000000),
+				open(g, 4, "ukava", "ukava-a", 2000_000000, 500_000000),
+			}
+		}),
+		blk(6*time.Hour, func(g *Gen) []genFn { return nil }),
+		blk(24*time.Hour, func(g *Gen) []genFn {
+			u := g.P.Users[0]
+			m := cdptypes.NewMsgDrawDebt(u.Addr, "bnb-a", c("usdx", 3_000_000))
+			m2 := cdptypes.NewMsgDeposit(g.P.Users[2].Addr, g.P.Users[5].Addr, c("xrp", 7_000000), "xrp-a")
+			return append([]genFn{fixed(one("cdp.draw", u, &m, "")), fixed(one("cdp.deposit", g.P.Users[5], &m2, ""))}, g.pricesTo("bnb", 1000)...)
+		}),
+		blk(3*24*time.Hour, func(g *Gen) []genFn {
+			return append(append(g.pricesTo("xrp", 1000), g.pricesTo("btc", 1000)...), g.pricesTo("ukava", 1000)...)
+		}),
+		blk(time.Hour, func(g *Gen) []genFn { return g.pricesTo("bnb", 1000) }),
+	)
+}
+
 // ScenarioBasicInvalidAfterRestart: block 3 carries a transaction whose message fails ValidateBasic (a cdp
 // deposit of 0). baseapp rejects it before the ante handler and reports, as its gas used, the gas accumulated on
 // the block context — which differs on a node re-opened from its database after block 2 (the capability
@@ -297,6 +328,31 @@ func ScenarioBasicInvalidAfterRestart() Script {
 			return []genFn{g.bankSend, fixed(one("cdp.deposit", u, &m, "0bnb (fails ValidateBasic)")), g.bankSend}
 		}),
 		blk(sixS, func(g *Gen) []genFn { return []genFn{g.bankSend} }),
+	)
+}
+
+// ScenarioLastCdpsLiquidated: several minimum-size CDPs of one collateral type, opened by different users, are
+// the only debt in the cdp module account. Interest accrues over a short gap (per-CDP interest rounds up more
+// than the collateral-type total does: the module holds 30000002 debt coins, the CDPs owe 30000003), then the
+// price drops and ONE begin block liquidates all of them: the last seizure must be clamped to the debt coins
+// the module account still holds. Needs Config.LiquidationInterval = 1.
+func ScenarioLastCdpsLiquidated(gap time.Duration) Script {
+	return script(
+		blk(sixS, func(g *Gen) []genFn {
+			var out []genFn
+			for k := 0; k < 3; k++ {
+				u := g.P.Users[k]
+				m := cdptypes.NewMsgCreateCDP(u.Addr, c("xrp", 100_000000), c("usdx", 10_000_000), "xrp-a")
+				out = append(out, fixed(one("cdp.create", u, &m, "minimum size xrp-a")))
+			}
+			return out
+		}),
+		// interest accrues over the gap; in the same block the oracles post the lower price (effective at EndBlock)
+		blk(gap, func(g *Gen) []genFn { return g.pricesTo("xrp", 300) }),
+		// next begin block: sync + liquidate all three
+		blk(time.Second, func(g *Gen) []genFn { return nil }),
+		blk(sixS, func(g *Gen) []genFn { return []genFn{g.auctionBid, g.auctionBid} }),
+		blk(sixS, func(g *Gen) []genFn { return nil }),
 	)
 }
 
